@@ -30,7 +30,10 @@ THEOREMS = [_T + n for n in [
     "C05_conversion_calls", "C05_conversion_box_ring", "C05_conversion_ring_order",
     "C05_points_degenerate", "C05_points_from_coordinates", "C05_vertex_inside", "C05_dispatch",
     "C05_centroid_inside_partial", "C05_tame_types", "C05_getPoint_inside_partial",
-    "C05_centroid_point", "C05_centroid_time_stamp", "C05_centroid_box"]]
+    "C05_centroid_point", "C05_centroid_time_stamp", "C05_centroid_box",
+    # follow-up: histories and call forms
+    "C05_history_pure", "C05_history_poison", "C05_history_revisit", "C05_call_forms", "C05_call_forms_unary",
+    "C05_sig_shape"]]
 LEVEL_TEXT = ("Lean theorems over the model: compute_bounds is exactly (min time, min freq, max time, max freq) over the "
               "coordinates (unique; time-only types over [0, MAX_FREQUENCY]; polygons: holes inside the shell envelope), it is "
               "the envelope of the modelled shapely conversion, the conversion is the shapely constructor call each "
@@ -45,7 +48,13 @@ LEVEL_TEXT = ("Lean theorems over the model: compute_bounds is exactly (min time
               "from the source on each run by path-exhaustive symbolic tracing and proved equal to the model for all "
               "(validated) inputs; tables (feature keys, Positions literal, MAX_FREQUENCY) are re-extracted and checked by "
               "`decide`; all code paths are run differentially on all nine geometry types, on shared objects (sessions), "
-              "through every construction path, and across re-assignment / model_copy / deepcopy of the coordinates (histories).")
+              "through every construction path, and across re-assignment / model_copy / deepcopy of the coordinates (histories). "
+              "Follow-up: a history of calls in one process is modelled (`runHist`: fresh or changed content, calls, results "
+              "the caller mutates) and proved to be the per-call answers of the pure model on the content the object has at "
+              "that call (`C05_history_pure`, `_poison`, `_revisit`), so every step of a run of the real code is judged on its "
+              "own; Python's binding of positional / keyword arguments is modelled (`bindCall`) and all call forms of the four "
+              "functions are proved to denote the same (geometry, position) (`C05_call_forms`, `_unary`, `C05_sig_shape`), the "
+              "parameter lists being re-read by introspection on every run (`sigOK` by `decide`).")
 LEVEL_NOTE = ("Trusted: Lean kernel, symbolic tracer (ordered-field semantics; shapely constructors / compute_bounds / "
               "geometry_to_shapely / Feature replaced by recording or symbolic stand-ins, by identity of the objects), shapely "
               "`bounds` as min/max of the shell vertices, shapely ring closure, GEOS segment length as sqrt(dx^2+dy^2) in "
@@ -53,6 +62,12 @@ LEVEL_NOTE = ("Trusted: Lean kernel, symbolic tracer (ordered-field semantics; s
               "point_on_surface for areal shapes (post-condition `inside the bounds` monitored, strictly), the centroid of "
               "non-tame polygons is modelled and compared (tolerance 2^-40) but `inside` is only monitored there; binary64 "
               "rounding of `end - start` and `(a + b) / 2` off the dyadic grid (round-once comparison with 2 ulp slack). "
+              "Histories, construction paths (22, incl. unvalidated assignment of ints / tuples / numpy scalars / shared "
+              "lists, subclass instances, pickle), call forms, sibling lifts, tolerance-sized extents (2^-7 ... 2^-40 at "
+              "offsets up to 86400 s / 4 MHz), size thresholds (16 ... 1100 vertices, 300 parts) and two non-dyadic lattices "
+              "are generator-bounded differential runs that validate the model against the code; they decide nothing by "
+              "themselves. Trusted in addition: Python's argument binding as `bindCall` states it; a call without position "
+              "is held to the default the signature declares (the documented 'bottom-left' when it declares none). "
               "Model tied to the code by regenerated obligations and generator-bounded correspondence.")
 TECHNIQUE = ("Lean 4 proof over model; symbolic-trace equality obligations and table obligations regenerated from source; "
              "differential correspondence with Lean-evaluated property statements on the real I/O")
@@ -60,12 +75,25 @@ RULE = ("geometries of all nine types (random on dyadic grids of several scales,
         "multi-geometries, zero-extent, open-ring, closed-loop and self-intersecting corner cases, arbitrary floats) x "
         "{compute_bounds, compute_geometric_features, shapely conversion, every position name incl. unknown ones, centroid "
         "against GEOS's formula, sessions on one shared object through seven construction paths, histories of re-assigned / "
-        "copied objects, type dispatch}; non-trivial = the implementation returned a value; distinct = distinct (operation, input)")
+        "copied objects, type dispatch}; follow-up (HISTORIES.md): single calls through 22 construction paths x 5 call forms "
+        "(positional, keyword, keyword reversed, mixed, position left out); histories through harness/history.py: x, a "
+        "neighbour of x (one coordinate moved by 2^-24, shifted, prefix kept and extended, same end points, parts reordered, "
+        "the same coordinates under another type tag, another call / call form / construction path), x again, on fresh "
+        "objects and on the previous object changed by ten routes (assignment, model_copy(update) shallow / deep, copy / "
+        "deepcopy / pickle + assignment, slice and item assignment inside the coordinate list, unvalidated tuples / ints), "
+        "arguments snapshotted around every call, returned values poisoned in place (list extended, elements edited, arrays "
+        "overwritten) and re-read at the end, 9 types x 6 calls poison sweep; every special and random geometry lifted to its "
+        "sibling types; extents 2^-7 ... 2^-40 at five time and four frequency offsets and bounds decided at the last bits; "
+        "16 / 17 / 256 / 257 / 1023 / 1024 / 1100 vertices and 17 / 300 parts; all 121 points of a 0.01 s and a 0.1 Hz lattice; "
+        "every reported replay is confirmed to fail as the only thing a fresh process does; "
+        "non-trivial = the implementation returned a value; distinct = distinct (operation, input)")
 TRUSTED = ["shapely `bounds` = min/max over the vertices of the converted shape (polygon: shell)",
            "shapely LinearRing closure rule (open ring or closed 3-vertex ring gets its first vertex appended); "
            "`ShCall.realize` (what shapely builds from a constructor call), compared differentially by the `shape` op",
            "GEOS Centroid: fan triangles about the first ring vertex, ring orientation = sign of the fan sum (simple rings), "
            "area > length > points fallback; segment length sqrt(dx*dx+dy*dy) in binary64 supplied by the harness",
+           "Python's binding of positional and keyword arguments to a parameter list (`SE.Bnd.bindCall`); "
+           "`inspect.signature` as the parameter list of the four public functions",
            "symbolic tracer stand-ins: compute_bounds -> symbolic 4-tuple, geometry_to_shapely -> object with symbolic "
            "`bounds`, `centroid`, `point_on_surface` and three `geoms`, Feature -> (term, value) record, shapely "
            "constructors -> recorded calls; geometries built with model_construct (no validation) around symbolic coordinates"]
@@ -83,7 +111,15 @@ NOT_COMPARED = ["error messages (only the error class)",
                 "centroid values of multi-ring shapes with a self-intersecting ring (orientation convention of GEOS not modelled)",
                 "polygons with a hole outside the shell envelope (OGC-invalid): bounds compared with the model "
                 "(shell only, as GEOS does), the all-coordinates clause is not asserted",
-                "the last 2 ulp of differences / half-sums off the dyadic grid (re-associated formulas round differently)"]
+                "the last 2 ulp of differences / half-sums off the dyadic grid (re-associated formulas round differently)",
+                "geometry-like objects that are not instances of the data model's geometry classes (duck-typed `.type` / "
+                "`.coordinates`: a dispatch by isinstance is a legitimate implementation); instances of subclasses are used",
+                "unvalidated coordinates the code does not accept today (numeric strings, numpy arrays put in by assignment)",
+                "which position a call without position means when the signature declares no name as default: held to the "
+                "documented 'bottom-left'; parameter names (keyword calls use the names the signature has now)",
+                "centroid / point_on_surface inside histories (their model needs shapely's answer as a parameter; single calls only)",
+                "the order in which equal results are produced; identity of returned objects (only that a caller's mutation "
+                "of one result never shows in another)"]
 
 TOL = "1/1099511627776"   # 2^-40
 BOUNDS_POS = ["bottom-left", "bottom-right", "top-left", "top-right", "center-left", "center-right",
@@ -258,17 +294,22 @@ def _holds_point(ctx, inp, io):
 
 
 def _excursion(ctx, inp, p):
-    """(relative distance of p outside the bounds of the coordinates (the model's), every violated axis has zero extent)"""
+    """(relative distance of p outside the bounds of the coordinates (the model's), every violated axis has zero
+    extent, largest relative extent of a violated axis)"""
     b = [frac(x) for x in ctx.model("bounds", {"g": inp["g"]})["val"]]
     x, y = frac(p[0]), frac(p[1])
     ex = Fraction(0)
     only_flat = True
+    ext = Fraction(0)
     for v, lo, hi in ((x, b[0], b[2]), (y, b[1], b[3])):
         d = max(lo - v, v - hi, Fraction(0))
-        if d > 0 and lo != hi:
-            only_flat = False
-        ex = max(ex, d / max(Fraction(1), abs(lo), abs(hi)))
-    return float(ex), only_flat
+        scale = max(Fraction(1), abs(lo), abs(hi))
+        if d > 0:
+            ext = max(ext, (hi - lo) / scale)
+            if lo != hi:
+                only_flat = False
+        ex = max(ex, d / scale)
+    return float(ex), only_flat, float(ext)
 
 
 LOW_DIM = ("TimeStamp", "Point", "LineString", "MultiPoint", "MultiLineString")
@@ -300,13 +341,14 @@ def _holds_lib_point(ctx, inp, io):
     r = ctx.model("inside", {"g": inp["g"], "p": io["val"], "tol": None})
     if r.get("val") is True:
         return None
-    ex, flat = _excursion(ctx, inp, io["val"])
+    ex, flat, ext = _excursion(ctx, inp, io["val"])
     extra = ""
     if inp["pos"] == "centroid" and _ogc_invalid(inp["g"]):
         mo = ctx.model("centroid", _to_model_centroid(inp))
         same = "val" in mo and all(tol_eq(frac(y), float(frac(x))) for x, y in zip(io["val"], mo["val"]))
         extra = f" ogc_invalid_polygon=True geos_formula={same or not _orientation_free(inp['g'])}"
-    return f"{inp['pos']} outside the bounds; rel_excursion={ex:.3e} zero_extent_axis_only={flat}{extra}"
+    return (f"{inp['pos']} outside the bounds; rel_excursion={ex:.3e} zero_extent_axis_only={flat} "
+            f"violated_axis_rel_extent={ext:.3e}{extra}")
 
 
 def _to_model_lib(inp):
@@ -545,6 +587,7 @@ def _build(gj, how):
 
 # -- call forms (HISTORIES.md section 2: keyword vs positional arguments) ---------------------------
 FORMS = ["pos", "kw", "kw_rev", "mixed", "default"]
+DOCUMENTED_DEFAULT = "bottom-left"      # "position ... Defaults to 'bottom-left'" (docstring of get_geometry_point)
 
 
 def _public():
@@ -589,10 +632,10 @@ def _norm_call(call):
     if o != "point":
         return {"op": o}
     if call.get("form") == "default":
-        d = _declared_default()
-        if d is not None:
-            return {"op": o, "pos": d}
-    return {"op": o, "pos": call.get("pos", "bottom-left")}
+        # the name the signature declares; a signature that declares none (`position=None`, resolved
+        # inside) is held to the documented default
+        return {"op": o, "pos": _declared_default() or DOCUMENTED_DEFAULT}
+    return {"op": o, "pos": call.get("pos", DOCUMENTED_DEFAULT)}
 
 
 def _call_raw(geom, call):
@@ -607,8 +650,8 @@ def _call_raw(geom, call):
         if names is not None:
             return fn(**{names[0]: geom})
         return fn(geom)
-    pos = call.get("pos", "bottom-left")
-    if form == "default" and _declared_default() is not None:
+    pos = call.get("pos", DOCUMENTED_DEFAULT)
+    if form == "default":
         return fn(geom)
     if names is not None and form == "kw":
         return fn(**{names[0]: geom, names[1]: pos})
@@ -982,12 +1025,19 @@ OPS["call_history"] = hist.history_op(
 
 def _rounding_excursion(failure, m):
     """known finding: shapely's centroid leaves the bounds by an ulp or so along an axis on which the
-    geometry has zero extent -- only this position, only such axes, only below the magnitude bound"""
+    geometry has zero extent, or an extent of a few ulps (`max_rel_extent`) -- only this position, only such
+    axes, only below the magnitude bound"""
     if failure.kind != "property" or failure.inp.get("pos") != m.get("position"):
         return False
     d = failure.detail
-    if "rel_excursion=" not in d or "zero_extent_axis_only=True" not in d:
+    if "rel_excursion=" not in d:
         return False
+    flat = "zero_extent_axis_only=True" in d
+    if not flat:
+        if "violated_axis_rel_extent=" not in d or "max_rel_extent" not in m:
+            return False
+        if float(d.split("violated_axis_rel_extent=")[1].split()[0]) > float(Fraction(m["max_rel_extent"])):
+            return False
     ex = float(d.split("rel_excursion=")[1].split()[0])
     return 0 < ex <= float(Fraction(m["max_rel_excursion"]))
 
@@ -1051,6 +1101,13 @@ def _table_obligations(ctx):
                        "theorem table_total (g : SE.Geom) : g.tag ∈ keys :=\n"
                        "  SE.Proofs.C05.C05_feature_table_total keys keys_cover g\n", {"op": "features"})
     ctx.stage("signatures", _signature_obligations, ctx)
+    # the five feature terms are told apart by equality with the library's term objects: they must be five
+    # different terms carrying the names the feature documentation gives them
+    from soundevent import terms
+    ts = [getattr(terms, n, None) for n in FEATURE_NAMES]
+    ctx.contract("feature_terms_distinct", all(t is not None for t in ts)
+                 and all(ts[i] != ts[j] for i in range(len(ts)) for j in range(i)), None,
+                 [str(getattr(t, "name", t)) for t in ts], detail="the feature terms of soundevent.terms are not five distinct terms")
     mf = getattr(data, "MAX_FREQUENCY", None)
     if not isinstance(mf, (int, float)) or isinstance(mf, bool):
         ctx.fail("obligation", "max_frequency", detail="`MAX_FREQUENCY` not found", extra={"op": "bounds"})
@@ -1070,8 +1127,13 @@ def _signature_obligations(ctx):
             ctx.note(f"signature of the `{o}` function cannot be inspected: keyword call forms not used for it")
             continue
         if o == "point" and _declared_default() is None:
-            ctx.note("get_geometry_point declares no position name as default: the call without position is made "
-                     "with an explicit 'bottom-left', signature obligation not generated")
+            ctx.note("get_geometry_point declares no position name as default: the call without position is held to "
+                     "the documented 'bottom-left', signature obligation not generated")
+            continue
+        need = 2 if o == "point" else 1
+        if any(k == inspect.Parameter.KEYWORD_ONLY for _n, _h, _d, k in ps[:need]):
+            ctx.fail("obligation", "signature_" + o, detail="a documented positional parameter became keyword-only",
+                     extra={"op": "call"})
             continue
 
         def tok(d):
@@ -1088,6 +1150,16 @@ def _feature_leaf(v):
     """[(term, value), ...] recorded by the Feature stub -> Lean `some [("name", value), ...]`"""
     items = ", ".join(f'("{_term_name(t)}", {symx.num(x)})' for t, x in v)
     return f"some [{items}]"
+
+
+class _StubFeature:
+    """a Feature stand-in: a (term, value) record that also answers `.term` / `.value`"""
+
+    def __init__(self, term, value):
+        self.term, self.value = term, value
+
+    def __iter__(self):
+        return iter((self.term, self.value))
 
 
 class _StubGeometry:
@@ -1347,7 +1419,7 @@ def _symbolic_ties(ctx):
     import shapely
     import soundevent.geometry.conversion as convmod
     from soundevent import data as datamod
-    feat_stub = lambda term=None, value=None, **kw: (term, value)   # noqa: E731
+    feat_stub = lambda term=None, value=None, **kw: _StubFeature(term, value)   # noqa: E731
     conv_stub = lambda g: _StubShape(g._bounds)   # noqa: E731
     by_id = [(datamod.Feature, feat_stub), (convmod.geometry_to_shapely, conv_stub)]
     attrs = {"bounds": lambda g, **kw: g.bounds, "get_num_geometries": lambda g, **kw: len(g.geoms)}
@@ -1831,12 +1903,8 @@ def _call_stage(ctx):
                                             f"({len(cases) - k} cases) besides the cycled ones")
 
 
-def poison_sweep():
-    """for every type and every call: x (result poisoned), x again from a fresh equal object, y (poisoned),
-    x again, y on the object re-assigned from x -- a shared mutable return value, a result cached per content
-    or per type shows as a wrong later answer"""
-    out = []
-    second = {
+def _second_samples():
+    return {
         "TimeStamp": _g("TimeStamp", 3), "TimeInterval": _g("TimeInterval", [0, 5]), "Point": _g("Point", [3, 7]),
         "LineString": _g("LineString", [[0, 1], [2, 9], [4, 3]]), "BoundingBox": _g("BoundingBox", [0, 1, 4, 9]),
         "Polygon": _g("Polygon", [[[0, 0], [8, 0], [8, 8], [0, 8], [0, 0]], [[2, 2], [4, 2], [4, 4], [2, 2]]]),
@@ -1844,6 +1912,14 @@ def poison_sweep():
         "MultiLineString": _g("MultiLineString", [[[0, 1], [2, 9]], [[3, 3], [6, 0]]]),
         "MultiPolygon": _g("MultiPolygon", [[[[0, 0], [8, 0], [8, 8], [0, 0]]], [[[9, 1], [12, 1], [12, 9], [9, 1]]]]),
     }
+
+
+def poison_sweep():
+    """for every type and every call: x (result poisoned), x again from a fresh equal object, y (poisoned),
+    x again, y on the object re-assigned from x -- a shared mutable return value, a result cached per content
+    or per type shows as a wrong later answer"""
+    out = []
+    second = _second_samples()
     calls = [{"op": "bounds"}, {"op": "features"}, {"op": "shape"}, {"op": "point", "pos": "center"},
              {"op": "point", "pos": "top-left", "form": "kw"}, {"op": "point", "form": "default"}]
     for ty in gen_geom.TYPES:
@@ -1851,24 +1927,71 @@ def poison_sweep():
         for c in calls:
             X, Y = {"g": x, "call": c, "build": "validate"}, {"g": y, "call": c, "build": "class"}
             out.append({"seq": [{"inp": X, "poison": True}, {"inp": X}, {"inp": Y, "poison": True}, {"inp": X},
-                                {"inp": Y, "reuse": "assign", "poison": True}, {"inp": X, "reuse": "inplace_items"}]})
+                                {"inp": Y, "reuse": "assign", "poison": True}, {"inp": X, "reuse": "inplace_items"},
+                                {"inp": Y}]})
+    return out
+
+
+def _with_canaries(h):
+    """a history that poisons results checks itself: after the last step, every poisoned call is made again
+    on a fresh object of equal content and on other content of the same type, so that whatever the poison
+    did to the state of the process shows inside this very history (the replay is then self-contained)"""
+    second = _second_samples()
+    extra, seen = [], set()
+    for st_ in h["seq"]:
+        if not st_.get("poison"):
+            continue
+        inp = st_["inp"]
+        for cand in (dict(inp), dict(inp, g=_norm(second[inp["g"]["type"]]), build="validate")):
+            k = jkey(cand)
+            if k not in seen:
+                seen.add(k)
+                extra.append({"inp": copy.deepcopy(cand)})
+    return {"seq": h["seq"] + extra} if extra else h
+
+
+def _corpus_histories():
+    """corpus entries of the poisoning operation (run in the last stage, not with the rest of the corpus)"""
+    import json
+    import os
+    from ..leanio import VERIF
+    d = os.path.join(VERIF, "corpus", PROPERTY)
+    out = []
+    for fn in sorted(os.listdir(d)) if os.path.isdir(d) else []:
+        if fn.endswith(".json"):
+            rec = json.load(open(os.path.join(d, fn)))
+            out += [r["input"] for r in (rec if isinstance(rec, list) else [rec])
+                    if r.get("op") == "call_history" and "input" in r]
     return out
 
 
 def _call_history_stage(ctx):
     """HISTORIES.md section 1 through harness/history.py: x, a neighbour of x, x again ... on fresh and on
     re-used objects, with poisoned results; every step judged by the model of the single call
-    (`C05_history_pure`), arguments snapshotted around every call, live results re-read at the end"""
-    sweep = poison_sweep()
+    (`C05_history_pure`), arguments snapshotted around every call, live results re-read at the end.
+    Runs LAST, the poisoning histories one at a time and only until the first one fails: a failure seen
+    earlier in the run can then never be the after-effect of a poisoned result."""
     geoms = special_geometries() + random_geometries(ctx.rng, ctx.budget(150, 1500))
     base = [{"g": g, "call": _random_call(ctx.rng), "build": ctx.rng.choice(BUILDS)} for g in geoms]
     hs = hist.sequences(ctx.rng, base, ctx.budget(260, 2600), variants=_h_variants, reuse_hows=MUTATIONS, poison=True)
-    for h in sweep + hs:
+    clean = [h for h in hs if not any(st_.get("poison") for st_ in h["seq"])]
+    corpus = _corpus_histories()
+    ctx.tally("corpus:call_history", len(corpus))
+    dirty = corpus + poison_sweep() + [_with_canaries(h) for h in hs if any(st_.get("poison") for st_ in h["seq"])]
+    ctx.exhaustive["poisoned results"] = ("9 types x 6 calls x (x poisoned, x, y poisoned, x, y re-assigned poisoned, "
+                                          "x edited in place, y)")
+
+    def tally(h):
         for st_ in h["seq"]:
             ctx.tally("call_history:" + (st_.get("reuse") or "fresh") + ("+poison" if st_.get("poison") else ""))
-    ctx.run_cases(OPS["call_history"], sweep + hs)
-    ctx.exhaustive["poisoned results"] = (f"{len(sweep)} histories: 9 types x 6 calls x (x poisoned, x, y poisoned, x, "
-                                          "y re-assigned poisoned, x edited in place)")
+    for h in clean:
+        tally(h)
+    ctx.run_cases(OPS["call_history"], clean)
+    for i, h in enumerate(dirty):
+        tally(h)
+        if ctx.run_cases(OPS["call_history"], [h]):
+            ctx.note(f"call-histories: stopped after the first failing poisoned history ({len(dirty) - i - 1} not run)")
+            break
 
 
 def _dispatch_stage(ctx):
@@ -1876,29 +1999,114 @@ def _dispatch_stage(ctx):
     ctx.exhaustive["type dispatch"] = f"the nine type tags and {len(UNKNOWN_TAGS)} foreign tags x both dispatching functions"
 
 
+def _timed(ctx, name, fn, *a):
+    import time
+    t0 = time.process_time()
+    r = ctx.stage(name, fn, *a)
+    ctx.tally("cpu_seconds:" + name, round(time.process_time() - t0, 1))
+    return r
+
+
 def run(ctx):
-    ctx.stage("tables", _table_obligations, ctx)
-    ctx.stage("symbolic-ties", _symbolic_ties, ctx)
-    ctx.stage("discharge", ctx.discharge, ["SoundeventModel.Bounds", "SoundeventModel.Tactics", "Proofs.C05"])
-    ctx.stage("corpus", ctx.run_corpus, OPS)
-    ctx.stage("special-cases", _special_stage, ctx)
-    ctx.stage("grid-correspondence", _grid_stage, ctx)
-    ctx.stage("free-correspondence", _free_stage, ctx)
-    ctx.stage("ogc-invalid-polygons", _invalid_stage, ctx)
-    ctx.stage("centroid-correspondence", _centroid_stage, ctx)
-    ctx.stage("sessions", _session_stage, ctx)
-    ctx.stage("histories", _history_stage, ctx)
-    ctx.stage("dispatch", _dispatch_stage, ctx)
+    _timed(ctx, "tables", _table_obligations, ctx)
+    _timed(ctx, "symbolic-ties", _symbolic_ties, ctx)
+    _timed(ctx, "discharge", ctx.discharge, ["SoundeventModel.Bounds", "SoundeventModel.Tactics", "Proofs.C05"])
+    _timed(ctx, "corpus", ctx.run_corpus, {k: v for k, v in OPS.items() if k != "call_history"})
+    _timed(ctx, "special-cases", _special_stage, ctx)
+    _timed(ctx, "grid-correspondence", _grid_stage, ctx)
+    _timed(ctx, "free-correspondence", _free_stage, ctx)
+    _timed(ctx, "ogc-invalid-polygons", _invalid_stage, ctx)
+    _timed(ctx, "centroid-correspondence", _centroid_stage, ctx)
+    _timed(ctx, "sessions", _session_stage, ctx)
+    _timed(ctx, "histories", _history_stage, ctx)
+    _timed(ctx, "dispatch", _dispatch_stage, ctx)
     # follow-up: histories, construction paths, siblings, boundaries (HISTORIES.md)
-    ctx.stage("call-forms-and-construction-paths", _call_stage, ctx)
-    ctx.stage("call-histories", _call_history_stage, ctx)
-    ctx.stage("sibling-lifts", _sibling_stage, ctx)
-    ctx.stage("numeric-boundaries", _boundary_stage, ctx)
-    ctx.stage("size-thresholds", _size_stage, ctx)
-    ctx.stage("non-dyadic-lattice", _lattice_stage, ctx)
+    _timed(ctx, "call-forms-and-construction-paths", _call_stage, ctx)
+    _timed(ctx, "sibling-lifts", _sibling_stage, ctx)
+    _timed(ctx, "numeric-boundaries", _boundary_stage, ctx)
+    _timed(ctx, "size-thresholds", _size_stage, ctx)
+    _timed(ctx, "non-dyadic-lattice", _lattice_stage, ctx)
+    _timed(ctx, "call-histories", _call_history_stage, ctx)      # last: the only stage that poisons results
+    ctx.stage("verify-replays", _verify_replays, ctx)
+
+
+HISTORY_OPS = ("session", "history", "call_history")
+
+
+def _fails_in_fresh_process(ctx, f, k):
+    """is the recorded input judged a violation when it is all a new process does?  (`./check --replay` on a
+    scratch record; None: no verdict)"""
+    import json
+    import os
+    import subprocess
+    import sys
+    from ..leanio import VERIF
+    d = os.path.join(VERIF, ".run")
+    os.makedirs(d, exist_ok=True)
+    path = os.path.join(d, f"verify_{os.getpid()}_{k}.json")
+    seed = 900000 + k
+    try:
+        json.dump({"property": PROPERTY, "kind": f.kind, "op": f.op, "input": f.inp}, open(path, "w"), default=str)
+        p_ = subprocess.run([sys.executable, os.path.join(VERIF, "check"), PROPERTY, "--tier", ctx.tier, "--seed", str(seed),
+                             "--replay", path], cwd=VERIF, stdout=subprocess.PIPE, stderr=subprocess.DEVNULL, text=True,
+                            timeout=300)
+        return {0: False, 1: True}.get(p_.returncode)
+    except Exception:  # noqa: BLE001
+        return None
+    finally:
+        for fn in [path] + [os.path.join(VERIF, "replays", f"{PROPERTY}_{ctx.tier}_{seed}_{i}.json") for i in range(5)]:
+            try:
+                os.remove(fn)
+            except OSError:
+                pass
+
+
+def _verify_replays(ctx, budget=8):
+    """A replay must fail on its own.  When the code keeps state between calls (a cache, a shared return
+    value, a remembered option) an input can fail in this run only because of what was called before it; such
+    a record is not a replay.  Every failure that would be reported is therefore judged again as the only
+    thing a fresh process does (`./check --replay`); those that pass there are set aside in favour of
+    failures that reproduce (histories carry their own prefix and are tried first).  If nothing reproduces,
+    the smallest one is kept and says so.  Nothing is done on a run without failures."""
+    import sys
+    from ..core import load_findings, match_finding
+    mod = sys.modules[__name__]
+    findings = load_findings(PROPERTY)
+    cand = [f for f in ctx.failures if f.kind == "property" and f.op in OPS and f.inp is not None
+            and match_finding(mod, findings, f) is None]
+    if not cand:
+        return
+    cand.sort(key=lambda f: (0 if f.op in HISTORY_OPS else 1, f.size()))
+    kept, stateful, unverified = set(), [], []
+    for k, f in enumerate(cand):
+        sig = (f.op, f.detail[:60])
+        if sig in kept:
+            continue
+        if len(kept) >= 5 or budget <= 0:
+            unverified.append(f)
+            continue
+        budget -= 1
+        if _fails_in_fresh_process(ctx, f, k) is False:
+            f.detail += " [passes as the only call of a fresh process: it failed through state carried over from earlier calls of this run]"
+            stateful.append(f)
+        else:
+            kept.add(sig)
+    if not stateful:
+        return
+    if kept:
+        # failures with the signature of a verified one stay, everything else is not needed for the report
+        dropped = stateful + [f for f in unverified if (f.op, f.detail[:60]) not in kept]
+    else:
+        stateful.sort(key=lambda f: f.size())
+        dropped = stateful[1:]         # nothing reproduces on its own: report the smallest, annotated
+    ids = {id(f) for f in dropped}
+    ctx.failures[:] = [f for f in ctx.failures if id(f) not in ids]
+    ctx.note(f"{len(dropped)} failing inputs set aside (they fail only after earlier calls in the same process, or were "
+             "not needed once self-contained replays were confirmed)")
 
 
 def search(ctx, failures):
     """a tie or table obligation broke: every operation on the special cases and a wide random stream"""
     ctx.stage("search-special", _run_stream, ctx, special_geometries(), "search-special")
     ctx.stage("search-grid", _run_stream, ctx, random_geometries(ctx.rng, 900), "search-grid")
+    ctx.stage("verify-replays", _verify_replays, ctx)
